@@ -647,7 +647,10 @@ class Env:
             if isinstance(e, (KeyboardInterrupt, SystemExit)):
                 raise
             return ("err", self.err_class(e))
-        return ("ok", self.dec(th), self.tree(prf), [self.dec(g) for g in rpt.gaps], sorted(self.log))
+        toy = lambda names: sorted(n for n in names if toy_kind(n) is not None)
+        counts = (rpt.thm_steps, rpt.prim_steps, rpt.macro_steps, toy(rpt.macros_eval), toy(rpt.macros_expand),
+                  rpt.steps == rpt.thm_steps + rpt.prim_steps + rpt.macro_steps)
+        return ("ok", self.dec(th), self.tree(prf), [self.dec(g) for g in rpt.gaps], sorted(self.log), counts)
 
     def extend(self, case):
         """case = {thms, exts: [["thm", name, seq, items|None] | "other"]} -> (theorems, axioms, err)."""
@@ -810,7 +813,9 @@ def parse_check(line, lvl):
         if k and k[0] == "macro" and k[1] <= lvl and comp != "N":
             evals.append((sexp.dec(rule), p_seq(comp)))
     trusted = [p_seq(th) for pos, rule, comp, th in x[4] if comp == "N" and sexp.dec(rule) != "sorry"]
-    return ("ok", p_seq(x[1]), tree, [p_seq(g) for g in x[3]], sorted(evals), trusted)
+    c = x[5]
+    counts = (int(c[0]), int(c[1]), int(c[2]), sorted(sexp.dec(n) for n in c[3]), sorted(sexp.dec(n) for n in c[4]), True)
+    return ("ok", p_seq(x[1]), tree, [p_seq(g) for g in x[3]], sorted(evals), trusted, counts)
 
 
 def parse_extend(line):
@@ -1686,7 +1691,9 @@ def same_result(m, r, case=None):
     mt = [(p, canon(t)) for p, t in m[2] if w is None or p in w]
     return (canon(m[1]) == canon(r[1]) and mt == [(p, canon(t)) for p, t in r[2]]
             and [canon(g) for g in m[3]] == [canon(g) for g in r[3]]
-            and sorted((n, canon(t)) for n, t in m[4]) == sorted((n, canon(t)) for n, t in r[4]))
+            and sorted((n, canon(t)) for n, t in m[4]) == sorted((n, canon(t)) for n, t in r[4])
+            # ProofReport counters: steps by kind, macros evaluated / expanded
+            and (len(r) < 6 or len(m) < 7 or m[6] == r[5]))
 
 
 def stream_extend(ctx, env, cases, label):
@@ -2145,10 +2152,16 @@ MANIFEST = {
             "against the rule layer with every eval of a macro above check_level, every expansion at or below it and every ill-kinded "
             "primitive call disabled); extend_admits_only_proved and extend_list_admits_only_proved (dict table, names may repeat and "
             "overwrite); on the heap model (walk over the object graph, shared and cyclic objects): accepted_walk_ids, "
-            "accepted_walk_is_tree; ItemID facts (can_depend_on irreflexive, transitive, precedes in document order, resolves only to "
+            "accepted_walk_is_tree, heap_accepted_justified (soundness proved DIRECTLY on the object graph: every citable statement "
+            "and the result derive, by the rules, from the statements nobody computed — no unfolding involved), "
+            "hFind_only_walked_positions (find_item on the graph resolves by position only: no negative / empty / out-of-range id, and "
+            "under can_depend_on only to entries walked before); report_counts_exact (ProofReport counters as derived from the trace; "
+            "compared with rpt on every run); ItemID facts (can_depend_on irreflexive, transitive, precedes in document order, resolves only to "
             "visible positions) about definitions translated from kernel/proof.py and kernel/thm.py on every run, with proofs that do not "
-            "follow the shape of the generated code. NOT PROVED: graph_check_eq_unfolding (heap walk on a graph = tree model on its "
-            "unfolding) — tied three ways on every run instead (implementation on the graph, heap model on the graph, tree model on the "
+            "follow the shape of the generated code. NOT PROVED: graph_check_eq_unfolding / graph_accept_implies_unfolding_accept (heap walk on a graph vs tree model on "
+            "its unfolding): the soundness they were meant to transfer is proved on the heap model itself (heap_accepted_justified); that on "
+            "the heap the uncomputed statements are exactly the reported gaps when not compute_only, and rpt.th_names, are not proved; the "
+            "agreement of the two models stays tied three ways on every run (implementation on the graph, heap model on the graph, tree model on the "
             "unfolding). TIE: differential runs on generated proof objects over a toy rule set (exhaustive small shapes + random; ids != "
             "positions, negative and empty ids, forward/self/closed-block citations, nested placeholders, shared/cyclic objects, twins, "
             "compute_only, levels 0-3, extension lists with overwritten names); accept/refuse, kind of refusal and every output of an "
